@@ -14,17 +14,18 @@
 (* any action may instead fail and end the run.  CS >= 1 and the           *)
 (* plaintext length L >= 0 are arbitrary, so the result holds for ANY      *)
 (* number of chunks.  IndInv is inductive: Init => IndInv and              *)
-(* IndInv /\ Next => IndInv'.                                              *)
+(* IndInv /\ Next => IndInv'.  MC_EncLoop checks with TLC that every step  *)
+(* of EncLoop is a step of this module under the projection Proj*.         *)
 (***************************************************************************)
 EXTENDS Integers, IndDefs
 
 CONSTANTS
   \* @type: Int;
-  CS,
-  \* @type: Int;
-  L
+  CS
 
 VARIABLES
+  \* @type: Int;
+  L,          \* the plaintext length: a parameter (never changes), a variable so that MC_EncLoop can instantiate it
   \* @type: Str;
   pc,
   \* @type: Int;
@@ -44,9 +45,14 @@ VARIABLES
   \* @type: Int;
   lastNonce
 
-ConstInit == CS \in Nat /\ CS >= 1 /\ L \in Nat
+\* the range of read sizes (all integers for Apalache; TLC overrides it with 0..CS)
+Lens == Int
 
-Init == /\ pc = "read0" /\ pos = 0 /\ covered = 0 /\ prevLen = 0 /\ numRead = 0 /\ done = FALSE
+vars == <<L, pc, pos, covered, prevLen, numRead, done, ctr, nsealed, lastNonce>>
+
+ConstInit == CS \in Nat /\ CS >= 1
+
+Init == /\ L \in Nat /\ pc = "read0" /\ pos = 0 /\ covered = 0 /\ prevLen = 0 /\ numRead = 0 /\ done = FALSE
         /\ ctr = 0 /\ nsealed = 0 /\ lastNonce = -1
 
 \* a conforming source: at most CS bytes, at most what remains, 0 only at end of data
@@ -54,20 +60,20 @@ ReadSize(n) == /\ n >= 0 /\ n <= CS /\ n <= L - pos
                /\ (n = 0 <=> pos = L)
 
 ReadFirst == /\ pc = "read0"
-             /\ \E n \in Int : ReadSize(n) /\ prevLen' = n /\ pos' = pos + n /\ done' = (n = 0)
-             /\ pc' = "read" /\ UNCHANGED <<covered, numRead, ctr, nsealed, lastNonce>>
+             /\ \E n \in Lens : ReadSize(n) /\ prevLen' = n /\ pos' = pos + n /\ done' = (n = 0)
+             /\ pc' = "read" /\ UNCHANGED <<L, covered, numRead, ctr, nsealed, lastNonce>>
 ReadNext  == /\ pc = "read"
-             /\ \E n \in Int : ReadSize(n) /\ numRead' = n /\ pos' = pos + n /\ done' = (done \/ n = 0)
-             /\ pc' = "seal" /\ UNCHANGED <<covered, prevLen, ctr, nsealed, lastNonce>>
+             /\ \E n \in Lens : ReadSize(n) /\ numRead' = n /\ pos' = pos + n /\ done' = (done \/ n = 0)
+             /\ pc' = "seal" /\ UNCHANGED <<L, covered, prevLen, ctr, nsealed, lastNonce>>
 Seal      == /\ pc = "seal" /\ lastNonce' = ctr /\ nsealed' = nsealed + 1 /\ pc' = "write"
-             /\ UNCHANGED <<pos, covered, prevLen, numRead, done, ctr>>
+             /\ UNCHANGED <<L, pos, covered, prevLen, numRead, done, ctr>>
 WriteRec  == /\ pc = "write" /\ covered' = covered + prevLen
              /\ IF done THEN pc' = "end" /\ UNCHANGED <<prevLen, ctr>>
                 ELSE pc' = "read" /\ prevLen' = numRead /\ ctr' = ctr + 1
-             /\ UNCHANGED <<pos, numRead, done, nsealed, lastNonce>>
+             /\ UNCHANGED <<L, pos, numRead, done, nsealed, lastNonce>>
 Fail      == /\ pc \in {"read0", "read", "seal", "write"} /\ pc' = "failed"
-             /\ UNCHANGED <<pos, covered, prevLen, numRead, done, ctr, nsealed, lastNonce>>
-Stutter   == pc \in {"end", "failed"} /\ UNCHANGED <<pc, pos, covered, prevLen, numRead, done, ctr, nsealed, lastNonce>>
+             /\ UNCHANGED <<L, pos, covered, prevLen, numRead, done, ctr, nsealed, lastNonce>>
+Stutter   == pc \in {"end", "failed"} /\ UNCHANGED vars
 Next == ReadFirst \/ ReadNext \/ Seal \/ WriteRec \/ Fail \/ Stutter
 
 \* ---- the properties ----
@@ -78,7 +84,7 @@ Lag == pos - covered <= 2 * CS
 \* ---- inductive invariant ----
 IndInv == EncIndInv(CS, L, pc, pos, covered, prevLen, numRead, done, ctr, nsealed, lastNonce)   \* IndDefs.tla
 \* for the consecution step every variable must be assigned before it is constrained
-IndInit == /\ pc \in {"read0", "read", "seal", "write", "end", "failed"}
+IndInit == /\ L \in Int /\ pc \in {"read0", "read", "seal", "write", "end", "failed"}
            /\ pos \in Int /\ covered \in Int /\ prevLen \in Int /\ numRead \in Int /\ done \in BOOLEAN
            /\ ctr \in Int /\ nsealed \in Int /\ lastNonce \in Int
            /\ IndInv
